@@ -33,6 +33,20 @@ def check(ctx):
     precedence(ctx, repo)
     result_type(ctx, repo)
     kernel_functions(ctx, repo)
+    from ._wholecol import kernel_hygiene, whole_column_functions
+    from .c05 import aggregates_built_for_supplied_names
+
+    aggregates_built_for_supplied_names(ctx, repo)
+    ctx.rule("W10", "a kernel never stores into one of its argument arrays")
+    ctx.rule("W11", "a result buffer is not allocated with the dtype of a caller-supplied fill value and then filled with a column's values")
+    for mod_, fd_, kind_ in whole_column_functions(repo):
+        if kind_ not in ("aggregation", "join"):
+            continue
+        fs_ = [f for f in kernel_hygiene(mod_, fd_, kind_) if f[0] in ("W10", "W11")]
+        for rid_ in ("W10", "W11"):
+            ctx.ob(rid_, ok=not [f for f in fs_ if f[0] == rid_], distinct=(mod_.rel, fd_.name))
+        for rid_, key_, ln_, msg_ in fs_:
+            ctx.violation(rid_, f"{mod_.rel}:{fd_.name}|{key_}", f"src/_gettsim/{mod_.rel}:{ln_} {fd_.name}", msg_)
     from .c01 import index_spaces
 
     index_spaces(ctx, repo, "IX")
@@ -312,6 +326,18 @@ def _spec_problems(repo, k, sp, group):
     unknown = set(sp) - {"aggr", "source_col", "p_id_to_aggregate_by"}
     if unknown:
         probs.append(f"unknown spec keys {sorted(unknown)}")
+    # an aggregate named with a time unit keeps the unit of its source (sums / max / ... do not convert units);
+    # an explicitly specified `x_y` with a monthly source also blocks the derivation of the correct 12-fold variant
+    src = sp.get("source_col")
+    if isinstance(src, str) and aggr in ("sum", "mean", "max", "min"):
+        import re as _re
+
+        units = "|".join(_re.escape(u) for u in repo.time_units)
+        grp_sfx = "|".join(_re.escape(g) for g in repo.groupings)
+        pat = _re.compile(rf".*_(?P<u>{units})(_(?:{grp_sfx}))?$")
+        mk, ms = pat.match(k), pat.match(src)
+        if mk and ms and mk.group("u") != ms.group("u"):
+            probs.append(f"is named as a per-{mk.group('u')} amount but aggregates the per-{ms.group('u')} column {src}: the value is off by the unit factor, and the explicit entry keeps the correctly converted variant from being derived")
     return probs
 
 
@@ -483,6 +509,10 @@ def kernel_functions(ctx, repo):
                 if not good:
                     ctx.violation("S-kernel", f"{name}|{ast.unparse(c.func)}", an.loc(c) + f" {name}", f"{name} reduces by hand with `{ast.unparse(c.func)}` into a buffer created by `{ast.unparse(al)[:50] if al is not None else '?'}`, which is not the identity element of that reduction (zeros = 1970-01-01 for dates, 0 for numbers): the initial fill takes part in the {k}, so a group whose members all lie on the other side of it gets a value no member has")
         for c in calls:
+            forced = [kw for kw in c.keywords if kw.arg == "dtype"]
+            if forced:
+                ctx.ob("S-kernel", ok=False, distinct=(name, c.lineno, "dtype"))
+                ctx.violation("S-kernel", f"{name}|dtype forced", an.loc(c) + f" {name}", f"{name} forces the accumulator of the reduction to `{ast.unparse(forced[0].value)}`: numpy_groupies widens the result on its own, a forced narrow integer type wraps around silently (int8 40 + 40 + 60 = -116)")
             f = next((kw.value for kw in c.keywords if kw.arg == "func"), c.args[2] if len(c.args) > 2 else None)
             fv = f.value if isinstance(f, ast.Constant) else None
             want = "sum" if k == "count" else k
